@@ -58,6 +58,8 @@ def model_jobs(tier):
                                             drop=["CONSTRAINT Emit"])),
         ("neg-unstripped", "Collect", subst_cfg("CollectMC_deny.cfg", "negu.cfg", DestMode='"unstripped"', DenyMax="0",
                                                 drop=["CONSTRAINT Emit"])),
+        ("neg-preserve", "Collect", subst_cfg("CollectMC_links.cfg", "negp.cfg", CopyMode='"preserve"', MaxLen="2",
+                                              drop=["CONSTRAINT Emit"])),
         ("neg-mangle32", "Collect", subst_cfg("CollectMC_deny.cfg", "negm.cfg", DestMode='"mangle32"', DenyMax="0",
                                               drop=["CONSTRAINT Emit"])),
     ]
@@ -65,7 +67,7 @@ def model_jobs(tier):
 
 
 EXPECT_NEG = {"neg-textual": "Contained", "neg-joined": "WritesUnderOut", "neg-unstripped": "FactoryWritesUnderOut",
-              "neg-mangle32": "FactoryWritesUnderOut"}
+              "neg-mangle32": "FactoryWritesUnderOut", "neg-preserve": "WritesUnderOut"}
 
 
 def run_models(tier):
@@ -172,6 +174,8 @@ def run(prop, tier):
                      ("deny cases wrote metadata", ds.get("docs", 0) > 0),
                      ("factories' results were persisted by the observer", ds.get("datafiles", 0) > 0),
                      ("file names with a blank were candidate items", ds.get("blank_items", 0) > 0),
+                     ("two specs persisted the same relative path", ps.get("pairs", 0) > 0),
+                     ("symbolic spec names with digits were denied", ds.get("digit_specs", 0) > 0),
                      ("items with regular-expression characters / deep path arguments were candidates",
                       ds.get("meta_items", 0) > 0 and ds.get("deep_items", 0) > 0)):
         if not ok:
@@ -217,9 +221,9 @@ def run(prop, tier):
                     % (ev["via"], "pattern" if ev["star"] else "path", ev["kind"], ev["ctx"], "/".join(ev["path"]),
                        "/".join(t["lay"]["root"]), ev["contents"], clause))
         elif ev["ev"] == "persist":
-            what = ("serialising the provider of path '%s' (save_as=%s) wrote %s; output directory is node %s (clause %s)"
-                    % ("/".join(ev["path"]), ev["saveas"],
-                       ["/".join(w) for w in ev["written"]], t["lay"]["out"], clause))
+            what = ("serialising the provider of path '%s' (save_as=%s, %s) wrote %s; output directory is node %s (clause %s)"
+                    % ("/".join(ev["path"]), ev["saveas"], ev["seq"],
+                       ["%s (%s)" % ("/".join(w), k) for w, k in zip(ev["written"], ev["wtypes"])], t["lay"]["out"], clause))
         elif ev["ev"] == "fpersist":
             what = ("%s(kind=%s, save_as form %s) persisted by the Hydration observer wrote %s; output directory is "
                     "out/ (clause %s)" % (ev["factory"], ev["kind"], ev["saveas"],
@@ -282,7 +286,7 @@ def selftest_traces(lay):
     L = dict(fs=lay["fs"], root=lay["root"], out=lay["out"])
     prov = dict(ev="provide", via="direct", kind="text", ctx="host", path=["d", "g"], star=False, kstatus="ok",
                 knode=9, outcome="yielded", contents=[9], exc="")
-    pers = dict(ev="persist", via="direct", path=["d", "g"], saveas="none",
+    pers = dict(ev="persist", via="direct", path=["d", "g"], saveas="none", seq="single", wtypes=["file", "file"],
                 dsts=[outloc + ["data", "d", "g"], outloc + ["meta_data", "x.json"]],
                 written=[outloc + ["data", "d", "g"], outloc + ["meta_data", "x.json"]])
     col = dict(ev="collect", factory="foreach_execute", kind="text", comp="", files=[], commands=[["/bin/echo"], ["/bin/ech"]],
@@ -295,7 +299,8 @@ def selftest_traces(lay):
                  comps=[], items=[dict(t="file", w=["/x/ab"], acc=True, cls="plain"),
                                   dict(t="file", w=["/x/my", "b"], acc=False, cls="blank")],
                  stored=True)
-    fper = dict(ev="fpersist", factory="command_with_args", kind="text", saveas="absfile", path=[],
+    fper = dict(ev="fpersist", factory="command_with_args", kind="text", saveas="absfile", path=[], seq="single",
+                wtypes=["file", "file"],
                 written=[["out", "data", "insights_commands", "sv", "x"], ["out", "meta_data", "c.json"]],
                 dsts=[["out", "data", "insights_commands", "sv", "x"], ["out", "meta_data", "c.json"]])
     dlay = dict(fs=[dict(k="dir", p=1, n="", abs=False, segs=[]), dict(k="dir", p=1, n="root", abs=False, segs=[]),
@@ -312,16 +317,22 @@ def selftest_traces(lay):
     variant("outside", "Contained", 0, lambda e: e[0].update(contents=[10]))
     variant("unidentified", "Contained", 0, lambda e: e[0].update(contents=[9, 0]))
     variant("kernel", "R4.resolve", 0, lambda e: e[0].update(knode=7))
-    variant("stray", "WritesUnderOut", 0, lambda e: (e[1]["written"].append(["t", "stray"]), e[1]["dsts"].append(["t", "stray"])))
-    variant("dotdot", "WritesUnderOut", 0, lambda e: (e[1]["written"].append(outloc[:-1] + ["x"]),
+    variant("stray", "WritesUnderOut", 0, lambda e: (e[1]["written"].append(["t", "stray"]), e[1]["wtypes"].append("file"),
+                                                     e[1]["dsts"].append(["t", "stray"])))
+    variant("dotdot", "WritesUnderOut", 0, lambda e: (e[1]["written"].append(outloc[:-1] + ["x"]), e[1]["wtypes"].append("file"),
                                                       e[1]["dsts"].append(outloc + ["data", "..", "..", "x"])))
-    variant("unexplained", "R4.destination", 0, lambda e: e[1]["written"].append(outloc + ["data", "zz"]))
+    variant("symlink", "WritesUnderOut", 0, lambda e: e[1].update(wtypes=["symlink", "file"]))
+    variant("pair-host-file", "WritesUnderOut", 0, lambda e: (e[1].update(seq="raw-then-text"),
+                                                              e[1]["written"].append(["t", "root", "d", "g"]),
+                                                              e[1]["wtypes"].append("file")))
+    variant("unexplained", "R4.destination", 0, lambda e: (e[1]["written"].append(outloc + ["data", "zz"]),
+                                                           e[1]["wtypes"].append("file")))
     variant("cmd", "DenyRespected", 1, lambda e: e[0]["items"][0].update(acc=True))
     variant("symbolic", "DenyRespected", 1, lambda e: e[1]["items"][0].update(acc=True))
     variant("blank", "DenyRespected", 1, lambda e: e[2]["items"][1].update(acc=True))
-    variant("refused", "WritesUnderOut", 1, lambda e: (e[3]["written"].append(["<outside>", "sv", "x"]),
+    variant("refused", "WritesUnderOut", 1, lambda e: (e[3]["written"].append(["<outside>", "sv", "x"]), e[3]["wtypes"].append("file"),
                                                        e[3]["dsts"].append(["<outside>", "sv", "x"])))
-    variant("sibling", "WritesUnderOut", 1, lambda e: (e[3]["written"].append(["root", "sv", "x"]),
+    variant("sibling", "WritesUnderOut", 1, lambda e: (e[3]["written"].append(["root", "sv", "x"]), e[3]["wtypes"].append("file"),
                                                        e[3]["dsts"].append(["root", "sv", "x"])))
     return out
 
